@@ -80,11 +80,48 @@ class FakeSession:
         pass
 
 
-def make_file(blob, cs, keep, junk_mode):
+_S3_TEMPLATE = None
+
+
+class FakeS3Object:
+    """Stands in for boto3's s3.Object: same server oracle as FakeSession"""
+
+    def __init__(self, blob, junk_mode):
+        self.sess = FakeSession(blob, junk_mode)
+        self.content_length = len(blob)
+        self.e_tag = '"verif-etag-0001"'
+
+    def get(self, Range=None, **kwargs):
+        resp = self.sess.get("s3://", headers={"Range": Range})
+        return {"Body": io.BytesIO(resp.content)}
+
+
+def make_file(blob, cs, keep, junk_mode, cls="http"):
+    if cls == "s3":
+        # the S3 subclass overrides download_range and _parse_header
+        from dclab.rtdc_dataset.fmt_s3 import S3File
+        global _S3_TEMPLATE
+        if _S3_TEMPLATE is None:
+            # creating boto3 sessions is slow; build one object and reset it
+            _S3_TEMPLATE = S3File("bucket/blob.rtdc",
+                                  endpoint_url="http://127.0.0.1:9",
+                                  use_ssl=False)
+        f = _S3_TEMPLATE
+        f._len = None
+        f._etag = None
+        f._pos = 0
+        f.cache = {}
+        f._chunk_size = cs
+        f._keep_chunks = keep
+        f.s3_object = FakeS3Object(blob, junk_mode)
+        f.session = FakeSession(blob, junk_mode)  # must not be used
+        f.fake = f.s3_object.sess
+        return f
     from dclab.http_utils import HTTPFile
     f = HTTPFile("http://verif.invalid/blob.rtdc", chunk_size=cs,
                  keep_chunks=keep)
     f.session = FakeSession(blob, junk_mode)
+    f.fake = f.session
     return f
 
 
@@ -138,14 +175,16 @@ def gen_case(rng, thorough=False):
                 off = rng.randint(-n, 2)
                 pos = n + off
             ops.append([0, w, off])
-    return dict(n=n, salt=salt, mode=mode, cs=cs, keep=keep, ops=ops)
+    cls = "s3" if rng.random() < 0.25 else "http"
+    return dict(n=n, salt=salt, mode=mode, cs=cs, keep=keep, ops=ops, cls=cls)
 
 
 def run_impl(case):
     """Run the real HTTPFile; returns (flat encoding, oracle failure or None,
     nontrivial)."""
     blob = blob_of(case["n"], case["salt"])
-    f = make_file(blob, case["cs"], case["keep"], case["mode"])
+    f = make_file(blob, case["cs"], case["keep"], case["mode"],
+                  case.get("cls", "http"))
     ref = io.BytesIO(blob)
     flat = []
     fail = None
@@ -193,7 +232,7 @@ def run_impl(case):
                 i, held, case["keep"])
     flat += [9, maxheld]
     nontrivial = data_reads > 0 and maxheld >= 1 and \
-        len(set(r for r in f.session.requests)) >= 2
+        len(set(r for r in f.fake.requests)) >= 2
     return flat, fail, nontrivial
 
 
@@ -237,6 +276,7 @@ def run(run):
         run.count("cs=%d" % c["cs"])
         run.count("keep=%d" % c["keep"])
         run.count("junk_mode=%d" % c["mode"])
+        run.count("class=%s" % c.get("cls", "http"))
         for o in c["ops"]:
             run.count(["op:seek", "op:tell", "op:read"][o[0]])
         if fail is not None:
